@@ -30,7 +30,8 @@ example :
 
 open Jasm.FrontEnd in
 /-- **C03 (whole operation)**: for a rule file whose `pattern` is any list of items and nested
-`$and` / `$or` / `$and_any_order` / `$not` groups of the fragment (written as YAML by `yIL`, each group
+`$and` / `$or` / `$and_any_order` / `$not` groups of the fragment - at instruction level and, inside
+the operand list of an item, at operand level - (written as YAML by `yIL` / `yOL`, each group
 optionally with `times: {min, max}`) and a listing file of the objdump grammar, the Boolean result
 of the whole modelled operation (`runOp`: configuration, YAML front end, typing, compilation,
 parsing, stream, search) is the specification's verdict `foundSpec` on the listing's instructions -/
@@ -52,7 +53,8 @@ theorem C03_pipeline (fl : Flags) (l : List Pat) (hne : l.isEmpty = false) (hsrc
 example :
     FrontEnd.srcIL [.or [.mnem "mov".toList [] Times.one,
         .and [.mnem "mov".toList [] Times.one, .mnem "nop".toList [] ⟨1, 2⟩] Times.one] Times.one,
-        .mnem "ret".toList [.operand "%rax".toList false] Times.one] = true := by
+        .mnem "ret".toList [.or [.operand "%rax".toList false, .not (.operand "%rbx".toList false) true Times.one] Times.one]
+          Times.one] = true := by
   decide +kernel
 
 end Jasm.C03
